@@ -330,6 +330,9 @@ func (sr *StatusReport) UnmarshalCbor(r io.Reader) error {
 
 	if n, err := cboring.ReadArrayLength(r); err != nil {
 		return err
+	} else if n > uint64(maxStatusInformationPos) {
+		// Never allocate for a count taken from the wire; there are only four kinds of status information.
+		return fmt.Errorf("status information array of %d elements exceeds the %d known elements", n, maxStatusInformationPos)
 	} else {
 		sr.StatusInformation = make([]BundleStatusItem, int(n))
 	}
